@@ -210,6 +210,61 @@ def run(ctx):
                     ok = _membership_guarded(gg, nid, d, k) or _in_try_keyerror(e)
                     r4.check(ok, f"K1 {fn.qualname}:{norm(e)} @ {norm(n.stmt)[:40]}", f"`{d}[{k}]` is dominated by a membership test of {k} in {d}", fn.loc(e),
                              why_fail="no dominating `in` test, truthy .get(), or KeyError handler")
+    # K1b (sibling agreement): the row loop refuses a select whose list is missing from the choices sheet UNLESS one of
+    # a few exemptions holds; add_choices_info_to_question later indexes choices[list_name] UNLESS its own skip
+    # conditions hold.  Every exemption must have its counterpart among the skip conditions, else the exempted form
+    # reaches the subscript (KeyError).
+    def _atoms(test, positive=True):
+        """conjuncts of a guard as (positive-form text) of the atoms that are negated there"""
+        out = []
+        if isinstance(test, ast.BoolOp) and isinstance(test.op, ast.And):
+            for v in test.values:
+                out += _atoms(v)
+        elif isinstance(test, ast.UnaryOp) and isinstance(test.op, ast.Not):
+            out.append(_strip_bool(test.operand))
+        elif isinstance(test, ast.Compare) and len(test.ops) == 1 and isinstance(test.ops[0], ast.NotIn):
+            out.append(f"{norm(test.left)} in {norm(test.comparators[0])}")
+        elif isinstance(test, ast.Compare) and len(test.ops) == 1 and isinstance(test.ops[0], ast.NotEq):
+            out.append(f"{norm(test.left)} == {norm(test.comparators[0])}")
+        return out
+
+    def _strip_bool(e):
+        while isinstance(e, ast.Call) and call_name(e) == "bool" and len(e.args) == 1:
+            e = e.args[0]
+        return norm(e)
+
+    def _skip_atoms(test):
+        out = []
+        if isinstance(test, ast.UnaryOp) and isinstance(test.op, ast.Not):
+            inner = test.operand
+            vals = inner.values if isinstance(inner, ast.BoolOp) and isinstance(inner.op, ast.Or) else [inner]
+            out += [_strip_bool(v) for v in vals]
+        return out
+
+    raise_if = None
+    for nid, nd in lg.nodes.items():
+        x = nd.stmt
+        if nd.kind == "stmt" and isinstance(x, ast.Raise) and x.exc is not None:
+            msg = x.exc.args[0] if isinstance(x.exc, ast.Call) and x.exc.args else x.exc
+            if "List name not in choices sheet" in message_skeleton(ctx, w2j.module, rd.resolve(nid, msg)):
+                gs = [t for t, pol in guards_of(x, stop=loop) if pol and "not in choices" in norm(t).replace("external_choices", "")]
+                raise_if = gs[-1] if gs else None
+    aci = ctx.func("pyxform.xls2json:add_choices_info_to_question", "C17.R4")
+    skips = set()
+    for x in walk_own(aci.node):
+        if isinstance(x, ast.If):
+            skips.update(_skip_atoms(x.test))
+            for sub in ast.walk(x):
+                if isinstance(sub, ast.If):
+                    skips.update(_skip_atoms(sub.test))
+    if raise_if is None:
+        r4.fail("K1b missing-list error", "the row loop raises a located error when a select's list is not on the choices sheet", w2j.loc(loop))
+    else:
+        for atom in _atoms(raise_if):
+            if atom.endswith(" in choices") or atom == "choices":
+                continue  # the membership test itself
+            r4.check(atom in skips, f"K1b exemption `{atom}`", "a form exempted from the missing-list error is also skipped where choices[list_name] is read",
+                     w2j.loc(raise_if), why_fail=f"add_choices_info_to_question skips only under {sorted(skips)}")
     # K2: iteration over a possibly-None slot that another site guards
     guarded, unguarded = [], []
     for fi in repo.all_functions():
